@@ -761,6 +761,13 @@ func checkC09(c *Ctx) {
 		})
 		c.Check(sizeOK && nameOK, "ERRFLOW", "tree.Consensus/taxa-mismatch", rs.Pos(), "different size or unknown name returns an error", fmt.Sprintf("taxon check of later trees incomplete (size compared and refused: %v, each name looked up and refused: %v)", sizeOK, nameOK)).Clause = "collections with differing taxa are rejected with an error"
 	}
+	c.Decides("FULL-LOOP: the loop of Consensus that adds the kept splits (and writes the mean length of tip branches, which come in the same list) visits every entry: no early exit once the tree is resolved")
+	if fi := c.Func("tree", "", "Consensus"); fi != nil {
+		c.fullLoop("FULL-LOOP", "tree.Consensus/assembly", fi, func(info *types.Info, call *ast.CallExpr) bool {
+			return isRepoFunc(calleeOf(info, call), "tree", "Tree", "AddBipartition")
+		}, "tip branches carry their mean length", "assembles the consensus from the kept splits")
+	}
+	c.Floor("FULL-LOOP", 1)
 	c.Decides("EDGE-CACHE: inside the loop that calls AddBipartition (which re-creates the branch of every node it moves) no branch of the consensus tree remembered from before the loop is used")
 	c.edgeCache("EDGE-CACHE", c.AllFuncs("tree"))
 	c.Floor("EDGE-CACHE", 1)
@@ -818,6 +825,13 @@ func checkC10(c *Ctx) {
 	c.fbpSupport()
 	c.normalizeTransfer()
 	c.compareTipIndexesRule()
+	c.Decides("FULL-LOOP: the FBP worker looks every reference branch up in the index of the bootstrap tree (no early exit on a count of matches: the two root branches of a rooted reference are the same split)")
+	if fi := c.Func("support", "", "FBP"); fi != nil {
+		c.fullLoop("FULL-LOOP", "support.FBP/lookup", fi, func(info *types.Info, call *ast.CallExpr) bool {
+			return isRepoFunc(calleeOf(info, call), "tree", "EdgeIndex", "Value")
+		}, "Felsenstein support equals the fraction of bootstrap trees containing the split", "looks the reference branches up")
+	}
+	c.Floor("FULL-LOOP", 1)
 	c.Decides("COUNT: the number of trees by which TBE divides (given to NormalizeTransferDistancesByDepth / ReformatAvgDistance) is a local counter of TBE starting at 0 and incremented exactly once per bootstrap tree taken from the channel")
 	c.tbeCount("COUNT")
 	c.Floor("COUNT", 2)
